@@ -4,6 +4,7 @@ package eng
 // ResponseWriters are ordinary (harness or library) code.
 
 import (
+	"fmt"
 	"go/token"
 	"go/types"
 	"net/http"
@@ -174,5 +175,66 @@ func init() {
 		rt := g.findMethod(tr.T, "RoundTrip")
 		res := g.callFn(&Closure{Fn: rt}, []Value{tr.V, a[1]}, g.top, token.NoPos).(Tuple)
 		return res
+	})
+}
+
+func init() {
+	regV("MountHTTP", func(g *G, a []Value) Value {
+		r := g.run
+		r.nextObj++
+		base := fmt.Sprintf("http://mount%d", r.nextObj)
+		r.env.httpSrv[base] = &HTTPMount{handler: a[0]}
+		return S(base)
+	})
+	reg("net/http.Post", func(g *G, fr *Frame, fn *ssa.Function, a []Value) Value {
+		g.model("http.Post is served in-process by the handler mounted with verif.MountHTTP")
+		raw := concStr(g, a[0])
+		u, err := url.Parse(raw)
+		if err != nil {
+			return Tuple{(*Value)(nil), g.mkError(S(err.Error()), Iface{})}
+		}
+		m := g.run.env.httpSrv[u.Scheme+"://"+u.Host]
+		if m == nil {
+			return Tuple{(*Value)(nil), g.mkError(S("Post "+raw+": connection refused"), Iface{})}
+		}
+		g.schedPoint(&Op{desc: "http.Post " + u.Path, enabled: func() bool { return true }})
+		bg := baseIntrinsics["context.Background"](g, fr, fn, nil)
+		P := g.run.P
+		rt := P.NamedType("net/http", "Request")
+		b, _ := a[2].(Iface)
+		var rc Value = Iface{}
+		if b.T != nil {
+			nop := P.Pkgs["io"].Func("NopCloser")
+			rc = g.callFn(&Closure{Fn: nop}, []Value{b}, g.top, token.NoPos)
+		}
+		hdr := &MapV{KT: types.Typ[types.String]}
+		g.mapSet(hdr, S("Content-Type"), Slice{a[1]})
+		req := new(Value)
+		*req = g.mkStruct(rt, map[string]Value{"Method": S("POST"), "URL": g.urlValue(u), "Proto": S("HTTP/1.1"), "Header": hdr, "Body": rc, "Host": S(u.Host), "ctx": bg, "RemoteAddr": S("uploader")})
+		wt := P.NamedType(VerifPkg, "WSResponseWriter")
+		wv := new(Value)
+		*wv = g.mkStruct(wt, map[string]Value{"Hdr": &MapV{KT: types.Typ[types.String]}})
+		h := m.handler.(Iface)
+		serve := g.findMethod(h.T, "ServeHTTP")
+		g.callFn(&Closure{Fn: serve}, []Value{h.V, Iface{T: types.NewPointer(wt), V: wv}, req}, g.top, token.NoPos)
+		st := fieldByName(wt, (*wv).(Struct), "Status").(Int)
+		if st.C == 0 {
+			st = Int{C: 200}
+		}
+		respT := P.NamedType("net/http", "Response")
+		empty := new(Value)
+		es := zero(P.NamedType("bytes", "Reader")).(Struct)
+		*empty = es
+		body := g.callFn(&Closure{Fn: P.Pkgs["io"].Func("NopCloser")}, []Value{Iface{T: types.NewPointer(P.NamedType("bytes", "Reader")), V: empty}}, g.top, token.NoPos)
+		resp := new(Value)
+		*resp = g.mkStruct(respT, map[string]Value{"StatusCode": st, "Status": S(http.StatusText(int(st.C))), "Body": body, "Header": &MapV{KT: types.Typ[types.String]}})
+		return Tuple{resp, Iface{}}
+	})
+	reg("net/http.Error", func(g *G, fr *Frame, fn *ssa.Function, a []Value) Value {
+		w := a[0].(Iface)
+		wh := g.findMethod(w.T, "WriteHeader")
+		g.callFn(&Closure{Fn: wh}, []Value{w.V, a[2]}, g.top, token.NoPos)
+		g.writeTo(w, g.strToBytes(strConcat(a[1].(Str), S("\n"))))
+		return nil
 	})
 }
